@@ -74,9 +74,9 @@ def check_case(rec, case):
     import gambatools.cfg_algorithms as ca
     RG = case['ref']
     n = case['n']
-    words = list(fa.words_upto(RG[1], n))
+    words = list(case['words']) if case.get('words') else list(fa.words_upto(RG[1], n))      # explicit (long) words or all words up to n
     L = cf.language_upto(RG, n)
-    rec.note_case(case, case['cls'], 0 < len(L) < len(words))
+    rec.note_case(case, case['cls'], 0 < len(L) < len(words) or (bool(case.get('words')) and 0 < len(L)))
     selfcheck(rec, all((w in L) == cf.accepts(RG, w) for w in words), RG)
     o = call(adapt.build_cfg, RG)
     if not o.ok:
@@ -242,6 +242,10 @@ def gen_cases(rec, rng, tier):
         # a variable (the start variable or another one) whose name is the empty string: legal for a grammar built through the API
         RG = cfgg.cnf_shape_with_inner_epsilon(rng) if rng.random() < 0.6 else cfgg.random_cnf(rng, rng.randint(2, 4), rng.randint(1, 5), nt=2)
         yield {'cls': 'empty_string_variable_name', 'ref': cfgg.rename_vars(RG, {(RG[3] if rng.random() < 0.6 else rng.choice(RG[0])): ''}), 'n': 4}
+    for (L_, extra) in (((13, 0), (14, 19), (15, 22), (36, 0), (37, 0), (38, 2)) if thorough else ((14, 19), (37, 0))):
+        if rec.shard % 4 == (L_ + extra) % 4:
+            RGl, near = cfgg.long_rhs_grammar(rng, L_, extra)
+            yield {'cls': 'long_right_hand_side', 'ref': RGl, 'n': L_ + 1, 'words': near}
     for _ in range(120 if thorough else 8):
         yield {'cls': 'unit_cycles', 'ref': cfgg.unit_cycle_grammar(rng), 'n': 3, 'via_chomsky': True}
         yield {'cls': 'redundant_cnf', 'ref': cfgg.redundant_cnf(rng), 'n': 5}
